@@ -277,7 +277,37 @@ class PathTable:
         if isinstance(st, (ast.Pass, ast.Assert, ast.Import, ast.ImportFrom, ast.FunctionDef, ast.ClassDef, ast.Global, ast.Nonlocal, ast.Delete)):
             return [l]
         if isinstance(st, ast.With):
+            for it in st.items:
+                if it.optional_vars is not None and isinstance(it.optional_vars, ast.Name):
+                    try:
+                        l.env[it.optional_vars.id] = T.tr(it.context_expr)
+                    except AnalysisError:
+                        l.env[it.optional_vars.id] = sp.Symbol(it.optional_vars.id, real=True)
             return self._walk(st.body, l, depth)
+        if isinstance(st, ast.Try):
+            # no-exception path: body + else; one alternative path per handler, taken from the state before the try
+            # (an approximation: the exception may be raised anywhere in the body); finally runs on all of them
+            start = self._copy(l)
+            out = []
+            for o in self._walk(list(st.body) + list(st.orelse), l, depth):
+                out.append(o)
+            for hd in st.handlers:
+                h = self._copy(start)
+                nm = unparse(hd.type) if hd.type is not None else "BaseException"
+                h.conds.append((sp.Eq(sp.Function("raised")(sp.Symbol(nm)), sp.true, evaluate=False), True))
+                h.cond_nodes.append(st)
+                if hd.name:
+                    h.env[hd.name] = sp.Symbol(hd.name, real=True)
+                out += self._walk(hd.body, h, depth)
+            if st.finalbody:
+                fin = []
+                for o in out:
+                    if o.exit == "fall":
+                        fin += self._walk(st.finalbody, o, depth)
+                    else:
+                        fin.append(o)
+                out = fin
+            return out
         raise AnalysisError(f"decision table: unsupported statement {type(st).__name__}")
 
 
